@@ -220,6 +220,35 @@ func extractAll(repo string) ([]point, []closer, error) {
 			}
 			return "unknown"
 		}
+		// names of sync.Cond values: struct fields / variables typed (*)sync.Cond or made by sync.NewCond
+		conds := map[string]bool{}
+		ast.Inspect(fi.f, func(n ast.Node) bool {
+			switch x := n.(type) {
+			case *ast.Field:
+				if strings.Contains(exprStr(fset, x.Type), "sync.Cond") {
+					for _, nm := range x.Names {
+						conds[nm.Name] = true
+					}
+				}
+			case *ast.AssignStmt:
+				for i := range x.Lhs {
+					if i < len(x.Rhs) && strings.HasPrefix(exprStr(fset, x.Rhs[i]), "sync.NewCond") {
+						nm := exprStr(fset, x.Lhs[i])
+						if j := strings.LastIndex(nm, "."); j >= 0 {
+							nm = nm[j+1:]
+						}
+						conds[nm] = true
+					}
+				}
+			}
+			return true
+		})
+		isCond := func(e string) bool {
+			if j := strings.LastIndex(e, "."); j >= 0 {
+				e = e[j+1:]
+			}
+			return conds[e]
+		}
 		// handler closure: methods reachable from the message handler
 		decls := map[string]*ast.FuncDecl{}
 		for _, d := range fi.f.Decls {
@@ -288,6 +317,7 @@ func extractAll(repo string) ([]point, []closer, error) {
 				}
 			}
 			goN := 0
+			inDefer := 0
 			var walk func(n ast.Node, fn, cx string)
 			emit := func(fn, cx string, pos token.Pos, op, ch string, sel bool, alts []alt) {
 				p := point{File: fi.rel, Pkg: fi.pkg, Func: fn, Ctx: cx, Line: fset.Position(pos).Line, Op: op, Chan: ch, Class: classify(ch), Select: sel, Alts: alts, Buf: "n/a"}
@@ -296,6 +326,9 @@ func extractAll(repo string) ([]point, []closer, error) {
 				}
 				if op == "wait" || op == "lock" {
 					p.Class = "sync"
+				}
+				if op == "condwait" {
+					p.Class = "cond"
 				}
 				if op == "recv" && !sel {
 					lastRecv[fi.rel+"|"+fn] = p.Class
@@ -322,6 +355,11 @@ func extractAll(repo string) ([]point, []closer, error) {
 			walk = func(n ast.Node, fn, cx string) {
 				ast.Inspect(n, func(m ast.Node) bool {
 					switch x := m.(type) {
+					case *ast.DeferStmt:
+						inDefer++
+						walk(x.Call, fn, cx)
+						inDefer--
+						return false
 					case *ast.GoStmt:
 						if fl, ok := x.Call.Fun.(*ast.FuncLit); ok {
 							goN++
@@ -342,6 +380,21 @@ func extractAll(repo string) ([]point, []closer, error) {
 						}
 						if se, ok := x.Fun.(*ast.SelectorExpr); ok {
 							recv := exprStr(fset, se.X)
+							// sync.Cond: Wait is a blocking point; Signal/Broadcast sites are its wakers
+							// (recorded like close sites: "deferred" = runs when the function returns,
+							// "protoStop" = only on an explicit Protocol.Stop, else the plain receive before it)
+							if se.Sel.Name == "Wait" && len(x.Args) == 0 && isCond(recv) {
+								emit(fn, cx, x.Pos(), "condwait", recv, false, nil)
+							}
+							if (se.Sel.Name == "Signal" || se.Sel.Name == "Broadcast") && isCond(recv) {
+								after := lastRecv[fi.rel+"|"+fn]
+								if inDefer > 0 {
+									after = "deferred"
+								} else if fd.Name.Name == "Stop" {
+									after = "protoStop"
+								}
+								cls = append(cls, closer{File: fi.rel, Func: fn, Ctx: cx, Chan: recv, After: after})
+							}
 							if se.Sel.Name == "Wait" && strings.Contains(strings.ToLower(recv), "waitgroup") {
 								emit(fn, cx, x.Pos(), "wait", recv, false, nil)
 							}
